@@ -109,7 +109,12 @@ func c04one(c *core.Ctx, spec *pktSpec, pkt *rtp.Packet, pb *poolBuf) {
 		c.Violate("sufficient", "C04/exact-fit/marshal-itself-fails", "Marshal() (MarshalTo into an exact-fit buffer) failed on a well-formed packet: %v / %v (%s)", werr, hwerr, spec)
 		return
 	}
-	if size != l.total || len(want) != size || len(hwant) != hsize {
+	if len(want) != size || len(hwant) != hsize {
+		// Marshal() is MarshalTo into a buffer of MarshalSize() bytes: "writes exactly MarshalSize() bytes"
+		c.Violate("n", "C04/marshal-length-differs-from-marshalsize", "Marshal() returned %d bytes, MarshalSize() is %d (header: %d vs %d) (%s)", len(want), size, len(hwant), hsize, spec)
+		return
+	}
+	if size != l.total {
 		// a MarshalSize that disagrees with the model's canonical layout is C01's subject; C04 needs a reference
 		c.Probe("no-reference")
 		c.Ev("noref", uint64(size), uint64(l.total))
